@@ -35,9 +35,9 @@ def run(ctx, coq_ok):
         b = [r for r, _t in res["relex"]]
         if a != b:
             i = next((k for k in range(min(len(a), len(b))) if a[k] != b[k]), min(len(a), len(b)))
-            glued = "".join(a[i:i + 2]) == (b[i] if i < len(b) else None)
+            glued = i < len(b) and b[i].startswith("".join(a[i:i + 2])) and len(a[i:i + 2]) == 2
             ctx.violation("relex-boundaries", "fixed tree has tokens %r but the fixed text lexes to %r [%s, rules %s]" % (a[i:i + 3], b[i:i + 2], d, rules[:12]),
-                          {"input": inp, "fixed": res["fixed"]}, attrs={"glued": glued, "pair": "".join(a[i:i + 2])[:6] if glued else None, "changed": changed})
+                          {"input": inp, "fixed": res["fixed"]}, attrs={"glued": glued, "pair": "".join(a[i:i + 2])[:2] if glued else None, "changed": changed})
             continue
         orig_kinds = set(tuple(x) for x in res.get("orig_lex", []))   # context-dependent matchers: the token had this kind before the fix too
         for k, ((raw, _t), alone, (_r2, t2)) in enumerate(zip(res["tree_tokens"], res["alone_types"], res["relex"])):
